@@ -4,7 +4,7 @@
 
    - a plan of the class is a coalgebra state that yields a fixed message list whatever it is sent ([follows]);
    - the message list is interpreted by [astep]/[arun] on an abstract bundler [ab]: open_run / close_run /
-     checkpoint ("head" messages: the engine's message cache is empty after them) and
+     checkpoint / stage / unstage ("head" messages: the engine's message cache is empty after them) and
      null / sleep / wait / set / trigger / create / read / save / drop ("body" messages: cached, hence re-issued
      after an interruption).  [arun] fails (None) on plans whose UNINTERRUPTED execution would raise
      (IllegalMessageSequence, a device read twice in a bundle, descriptor mismatch, ...), so "arun succeeds" is
@@ -40,7 +40,9 @@ Definition stale (a : abs) : abs := {| a_next := a_next a; a_fresh := false; a_r
 Definition freshen (a : abs) : abs := {| a_next := a_next a; a_fresh := true; a_run := a_run a |}.
 
 Definition is_head (c : cmd) : bool :=
-  match c with COpenRun | CCloseRun _ _ | CCheckpoint => true | _ => false end.
+  match c with COpenRun | CCloseRun _ _ | CCheckpoint | CStage | CUnstage => true | _ => false end.
+(* head messages that leave the message cache alone: allowed only when it is empty *)
+Definition needs_fresh (c : cmd) : bool := match c with COpenRun | CStage | CUnstage => true | _ => false end.
 Definition is_body (c : cmd) : bool :=
   match c with
   | CNull | CSleep | CWait _ | CSet _ | CTrigger _ | CCreate _ | CRead | CSave | CDrop => true
@@ -107,6 +109,7 @@ Definition astep (a : abs) (m : msg) : option (abs * list doc) :=
                           [DStop (ab_uid r) (match es with Some x => x | None => XSuccess end) rs (ab_num_events r)])
           end
       end
+  | CStage | CUnstage => if a_fresh a then Some (a, []) else None
   | CCreate name =>
       match a_run a with
       | None => None
@@ -228,15 +231,17 @@ Fixpoint follows (rv : val) (l : list msg) (p : P) : Prop :=
   | m :: l' => forall v, exists p', presume p (Send v) = Yielded m p' /\ follows rv l' p'
   end.
 
-(* devices that do not fail: set/trigger give a status object, read gives a value, the pause()/resume() hooks
-   do not raise (stop() may: the engine swallows it) *)
+(* devices that do not fail: set/trigger give a status object, read gives a value, the pause()/resume() hooks and
+   stage()/unstage() do not raise (stop() may: the engine swallows it) *)
 Definition dev_typed : Prop :=
   forall d x,
     (exists d' sid ok, dev d x MSet = (d', DStatus sid ok)) /\
     (exists d' sid ok, dev d x MTrigger = (d', DStatus sid ok)) /\
     (exists d' z, dev d x MRead = (d', DVal z)) /\
     (forall e, snd (dev d x MPause) <> DRaise e) /\
-    (forall e, snd (dev d x MResume) <> DRaise e).
+    (forall e, snd (dev d x MResume) <> DRaise e) /\
+    (forall e, snd (dev d x MStage) <> DRaise e) /\
+    (forall e, snd (dev d x MUnstage) <> DRaise e).
 
 (* an event the real system can deliver in state [s]: the task runs only when it is enabled, the run permit
    is released only by __call__ / resume(), resume() is called on a paused engine, only __call__ and resume()
@@ -271,6 +276,6 @@ Definition ty_dev (ledger : list devres) (pos : nat) (d : nat) (m : devmeth) : n
    match m with
    | MSet | MTrigger => match r with DStatus _ _ => r | _ => DStatus 0 true end
    | MRead => match r with DVal _ => r | _ => DVal 0%Z end
-   | MPause | MResume => match r with DRaise _ => DUnit | _ => r end
+   | MPause | MResume | MStage | MUnstage => match r with DRaise _ => DUnit | _ => r end
    | _ => r
    end).
